@@ -418,10 +418,11 @@ class Identity(ConstantValue):
 
     def __getitem__(self, key):
         """Get an item."""
-        if len(key) != 2:
-            raise ValueError("Size mismatch for Identity.")
-        if all(isinstance(k, int | FixedIndex) for k in key):
+        if not isinstance(key, tuple):
+            key = (key,)
+        if len(key) == 2 and all(isinstance(k, int | FixedIndex) for k in key):
             return IntValue(1) if (int(key[0]) == int(key[1])) else Zero()
+        # Partial indexing, slices and ellipsis are handled (and checked) like for any other tensor
         return Expr.__getitem__(self, key)
 
     def __str__(self):
@@ -462,10 +463,11 @@ class PermutationSymbol(ConstantValue):
 
     def __getitem__(self, key):
         """Get an item."""
-        if len(key) != self._dim:
-            raise ValueError("Size mismatch for PermutationSymbol.")
-        if all(isinstance(k, int | FixedIndex) for k in key):
+        if not isinstance(key, tuple):
+            key = (key,)
+        if len(key) == self._dim and all(isinstance(k, int | FixedIndex) for k in key):
             return self.__eps(key)
+        # Partial indexing, slices and ellipsis are handled (and checked) like for any other tensor
         return Expr.__getitem__(self, key)
 
     def __str__(self):
